@@ -115,12 +115,34 @@ def mk_kv(U, rep="frac", degree=None):
     return KnotVector(conv(list(U), rep), degree)
 
 
+def _scribble(box):
+    """the caller re-uses a container it handed over: overwrite every entry (a curve that kept the container itself
+    instead of its values changes with it, which the oracles of the checks then see)"""
+    if isinstance(box, np.ndarray):
+        box *= 3
+        box += 1
+    elif isinstance(box, list):
+        for i, x in enumerate(box):
+            box[i] = x * 3 + 1
+
+
 def mk_curve(U, P=None, W=None, rep="frac"):
-    c = Curve(conv(list(U), rep))
+    """Curve from exact data in the given representation. The lists of knots, scalar control points and weights (a numpy
+    array of weights for rep npfloat) are the caller's: they are overwritten as soon as the library has received them."""
+    kl = conv(list(U), rep)
+    c = Curve(kl)
+    _scribble(kl)
     if P is not None:
-        c.ctrlpoints = points_arg(P, rep)
+        pl = points_arg(P, rep)
+        c.ctrlpoints = pl
+        if isinstance(pl, list):
+            _scribble(pl)
     if W is not None:
-        c.weights = conv(list(W), rep)
+        wl = conv(list(W), rep)
+        if rep == "npfloat":
+            wl = np.array(wl, dtype="float64")
+        c.weights = wl
+        _scribble(wl)
     return c
 
 
